@@ -60,6 +60,8 @@ pub struct Ev {
 #[derive(Default)]
 pub struct LogInner {
   pub evs: Vec<Ev>,
+  /// subscriptions seen so far per spy id (each gets its own observer id)
+  pub spy_instances: HashMap<u32, u32>,
   /// (probe, thread inside, thread entering)
   pub overlaps: Vec<(u32, u32, u32)>,
 }
@@ -76,6 +78,13 @@ impl Log {
     let ev = Ev { seq, id, k, vt: crate::vtime::now(), thread: thread_id() };
     self.0.lock().unwrap_or_else(|e| e.into_inner()).evs.push(ev);
     seq
+  }
+  /// observer id of the next subscription through spy `id`: id*1000 + n
+  pub fn spy_instance(&self, id: u32) -> u32 {
+    let mut g = self.0.lock().unwrap_or_else(|e| e.into_inner());
+    let n = g.spy_instances.entry(id).or_insert(0);
+    *n += 1;
+    id * 1000 + (*n - 1)
   }
   pub fn mark(&self, id: u32, what: &'static str, v: i64) -> u64 {
     self.push(id, K::Mark(what, v))
@@ -267,6 +276,9 @@ where
   type Unsub = TrackedSub<S::Unsub>;
   fn actual_subscribe(self, observer: O) -> Self::Unsub {
     let Spy { src, id, log } = self;
+    // every subscription is its own observer (an inner chain of a flattening
+    // operator is subscribed once per outer item)
+    let id = log.spy_instance(id);
     log.push(id, K::Subscribed);
     let u = src.actual_subscribe(SpyObserver { o: observer, id, log: log.clone() });
     TrackedSub { u, id, log }
